@@ -11,11 +11,83 @@ def fold(cls, k):
     return k
 
 
+def replay_scope(inp):
+    """Scope.update / declare / get_type / get_symbol_scope on a real chain of two or three scopes: the operation must
+    consult and change only what a mapping keyed by the folded name would (counterexamples of the deductive specs are
+    abstract; the driver tries the concrete situations they stand for)"""
+    from loki import Scope, SymbolAttributes, BasicType
+    meth = inp['method']
+    bad = []
+    for here in (True, False):
+        for outer_has in (True, False):
+            for spelling in ('N', 'n'):
+                outer = Scope()
+                inner = Scope(parent=outer)
+                if outer_has:
+                    outer.symbol_attrs['n'] = SymbolAttributes(BasicType.INTEGER, kind='outer', intent='in')
+                if here:
+                    inner.symbol_attrs['n'] = SymbolAttributes(BasicType.REAL, kind='inner')
+                case = {'declared_here': here, 'declared_in_enclosing_scope': outer_has, 'spelling': spelling}
+                try:
+                    if meth == 'update':
+                        for fail in (True, False):
+                            i2 = inner.clone(parent=outer) if False else inner
+                            before_outer = outer.symbol_attrs.get('n')
+                            try:
+                                inner.update(spelling, fail=fail, shape=(1,))
+                                raised = False
+                            except ValueError:
+                                raised = True
+                            if raised != (fail and not here):
+                                bad.append(dict(case, fail=fail, what='ValueError raised: %s' % raised))
+                            if not raised:
+                                e = inner.symbol_attrs['n']
+                                if here and e.kind != 'inner':
+                                    bad.append(dict(case, fail=fail, what='local entry replaced by %r' % (e,)))
+                                if not here and (getattr(e, 'kind', None) is not None or getattr(e, 'intent', None) is not None):
+                                    bad.append(dict(case, fail=fail, what='new entry inherits from the enclosing scope: %r' % (e,)))
+                            if outer.symbol_attrs.get('n') != before_outer:
+                                bad.append(dict(case, fail=fail, what='enclosing scope written'))
+                            if not here and 'n' in inner.symbol_attrs:
+                                del inner.symbol_attrs['n']
+                    elif meth == 'declare':
+                        for fail in (True, False):
+                            try:
+                                inner.declare(spelling, BasicType.LOGICAL, fail=fail)
+                                raised = False
+                            except ValueError:
+                                raised = True
+                            if raised != (fail and here):
+                                bad.append(dict(case, fail=fail, what='ValueError raised: %s' % raised))
+                            if not raised and inner.symbol_attrs['n'].dtype != BasicType.LOGICAL:
+                                bad.append(dict(case, fail=fail, what='entry is not the new declaration'))
+                            if not here and 'n' in inner.symbol_attrs:
+                                del inner.symbol_attrs['n']
+                            elif here:
+                                inner.symbol_attrs['n'] = SymbolAttributes(BasicType.REAL, kind='inner')
+                    elif meth == 'get_type':
+                        for recursive in (True, False):
+                            t = inner.get_type(spelling, recursive=recursive, fail=False)
+                            exp = 'inner' if here else ('outer' if (recursive and outer_has) else None)
+                            if (None if t is None else t.kind) != exp:
+                                bad.append(dict(case, recursive=recursive, what='got %r, expected the %s declaration' % (t, exp)))
+                    elif meth == 'get_symbol_scope':
+                        s = inner.get_symbol_scope(spelling)
+                        exp = inner if here else (outer if outer_has else None)
+                        if s is not exp:
+                            bad.append(dict(case, what='wrong scope'))
+                except Exception as e:  # pylint: disable=broad-except
+                    bad.append(dict(case, what='%s: %s' % (type(e).__name__, e)))
+    print(json.dumps({'reproduced': bool(bad), 'observed': bad[:3], 'expected': 'mapping keyed by the folded name'}))
+
+
 def main():
     rec = json.load(open(sys.argv[1]))
     inp = rec['inputs']
     from loki.tools.util import CaseInsensitiveDict, CaseInsensitiveDefaultDict
     from loki import SymbolTable, SymbolAttributes, BasicType
+    if inp.get('class') == 'Scope':
+        return replay_scope(inp)
     cls, meth, key = inp['class'], inp['method'], inp['key']
     if meth in ('lookup', '_lookup_formatted_name'):
         # chain: this table -> parent (possibly empty) -> grand-parent (declares the name or not)
